@@ -169,16 +169,16 @@ func (c *handCfg) options() *pokerface.GameOptions {
 }
 
 type hand struct {
-	o      *Out
-	cfg    *handCfg
-	g      pokerface.Game
-	twin   *pokerface.GameState // state threaded through table.NativeBackend (a JSON hop at every call)
-	nb     *table.NativeBackend
-	mon    *engineMon
+	o       *Out
+	cfg     *handCfg
+	g       pokerface.Game
+	twin    *pokerface.GameState // state threaded through table.NativeBackend (a JSON hop at every call)
+	nb      *table.NativeBackend
+	mon     *engineMon
 	useTwin bool
 	rawTwin *pokerface.GameState // the twin's own state after the last op (before any resynchronisation)
-	dead   bool // a panic ended the history
-	closed bool
+	dead    bool                 // a panic ended the history
+	closed  bool
 }
 
 func cloneJSON(gs *pokerface.GameState) *pokerface.GameState {
